@@ -170,15 +170,8 @@ def condJump (st : State) (c : Bool) (w : Nat) : StepRes := .next (if c then st.
 
 def takeArgs (st : State) : List Value × State := (st.args.toList, { st with args := #[] })
 
-/-- one instruction of `run_vm` -/
-def step (p : Program) (st : State) : StepRes :=
-  let d := curDef p st
-  match d.code[st.cur.pc]? with
-  | none => .unsup "pc out of range"
-  | some w =>
-  match Op.ofNat? (w % 128) with
-  | none => .unsup "bad opcode"
-  | some op =>
+/-- the effect of one decoded instruction (`d` = running funcdef, `w` = instruction word, `op` = its opcode) -/
+def execOp (p : Program) (st : State) (d : FuncDef) (w : Nat) (op : Op) : StepRes :=
   match op with
   | .noop => .next st.adv
   | .error => raise p st (st.getReg (fA w))
@@ -264,6 +257,16 @@ def step (p : Program) (st : State) : StepRes :=
       .next (st2.setAdv (fD w) v))
   | .makeString | .makeBuffer => .unsup "make string/buffer"
   | _ => .unsup ("opcode " ++ op.cName)
+
+/-- one instruction of `run_vm`: fetch, decode, execute -/
+def step (p : Program) (st : State) : StepRes :=
+  let d := curDef p st
+  match d.code[st.cur.pc]? with
+  | none => .unsup "pc out of range"
+  | some w =>
+  match Op.ofNat? (w % 128) with
+  | none => .unsup "bad opcode"
+  | some op => execOp p st d w op
 
 /-- run until the bottom frame returns, an error is raised, or the fuel runs out -/
 def run (p : Program) : Nat → State → Outcome × State
